@@ -3,7 +3,8 @@
    (IO/OvmbReaderModel.v), `encode` of BinaryFileWriter (IO/OvmbWriterModel.v); their correspondence with the library is
    checked by lib/checks_ovmb.py on every run. *)
 From Coq Require Import ZArith List Bool.
-From OVM Require Import Base.Int32 Gen.OvmbFormat IO.Bytes IO.OvmbWriterModel IO.OvmbReaderModel IO.OvmbProofs.
+From OVM Require Import Base.Int32 Gen.OvmbFormat IO.Bytes IO.OvmbWriterModel IO.OvmbReaderModel IO.OvmbProofs IO.Ovmb2Small
+  IO.Ovmb2Examples.
 Import ListNotations.
 Local Open Scope Z_scope.
 
@@ -14,6 +15,24 @@ Theorem C18_prefix : forall o dim topo m n r,
   decode_impl o (firstn n (encode dim topo m)) <> ROk r.
 Proof. exact prefix_rejected. Qed.
 Print Assumptions C18_prefix.
+
+(* The assumption `small` follows from the writer's contract and explicit bounds on the mesh alone (`bounded`, IO/Ovmb2Small.v:
+   dimension and topology type are bytes, fewer than 2^57 handles in all faces resp. all cells, property names / type names /
+   defaults / values below 2^58 bytes together): the writer's output is a byte string shorter than 2^62 bytes ... *)
+Theorem C18_encode_small : forall dim topo m, wf_file dim m -> bounded dim topo m -> small (encode dim topo m).
+Proof. exact encode_small. Qed.
+Print Assumptions C18_encode_small.
+
+(* ... so every strict prefix of the writer's output for a well-formed, bounded mesh is rejected, with no assumption about the
+   encoding itself. *)
+Theorem C18_prefix' : forall o dim topo m n r,
+  wf_file dim m -> bounded dim topo m -> (n < length (encode dim topo m))%nat ->
+  decode_impl o (firstn n (encode dim topo m)) <> ROk r.
+Proof. exact prefix_rejected'. Qed.
+Print Assumptions C18_prefix'.
+
+Example C18_prefix'_nonvacuous : wf_file 3 ex_rich /\ bounded 3 0 ex_rich /\ wf_file 3 ex_tet /\ bounded 3 1 ex_tet.
+Proof. split; [apply ex_rich_hyps|]. split; [apply ex_rich_bounded|]. split; [exact ex_tet_wf|apply ex_rich_bounded]. Qed.
 
 (* A stream that reports its full length but delivers only the first k < length bytes never gives Ok. *)
 Theorem C18_stream : forall o k bytes m,
